@@ -703,6 +703,130 @@ pub fn run(cfg: &Cfg, rep: &mut Report) {
             ctx.sample(|| jobj(&[("corrupted_message", jbytes(&c)), ("operator", jstr(op)), ("reference", jstr(v))]));
         }
     });
+    // (2b) scale: one dimension of an otherwise ordinary message blown up past every 8/16-bit counter
+    let n = cfg.n(6, 3_000, 60_000);
+    run_cases(cfg, "scale", n, rep, |rng, ctx| {
+        let big = match rng.usize(4) {
+            0 => 256 + rng.usize(16),
+            1 => 300 + rng.usize(700),
+            2 => 65_530 + rng.usize(12),
+            _ => 1_000 + rng.usize(9_000),
+        };
+        let big = if ctx.cfg.tiny { 256 + rng.usize(8) } else { big };
+        let mut m: Vec<u8> = Vec::new();
+        let dim = rng.usize(9);
+        let name = ["long-string", "long-white-space", "many-digits", "many-data-elements", "many-units", "long-block", "long-expression", "deep-header", "many-fraction-and-exponent-digits"][dim];
+        match dim {
+            0 => {
+                let q = if rng.bool() { b'"' } else { b'\'' };
+                m.extend_from_slice(b"A 1,");
+                m.push(q);
+                for i in 0..big {
+                    let c = b' ' + ((i * 7 + rng.usize(3)) % 95) as u8;
+                    if c == q {
+                        m.push(q);
+                    }
+                    m.push(c);
+                }
+                m.push(q);
+                m.extend_from_slice(b",2;B?");
+            }
+            1 => {
+                m.extend_from_slice(b"A");
+                for _ in 0..big {
+                    m.push(*rng.pick(WS));
+                }
+                m.extend_from_slice(b"1");
+                for _ in 0..big {
+                    m.push(*rng.pick(WS));
+                }
+                m.extend_from_slice(b",");
+                for _ in 0..big {
+                    m.push(*rng.pick(WS));
+                }
+                m.extend_from_slice(b"'x'");
+                for _ in 0..big / 2 {
+                    m.push(b' ');
+                }
+                m.extend_from_slice(b";");
+                for _ in 0..big {
+                    m.push(b' ');
+                }
+                m.extend_from_slice(b"B");
+            }
+            2 => {
+                m.extend_from_slice(b"A ");
+                for _ in 0..big.min(20_000) {
+                    m.push(b'0' + rng.usize(10) as u8);
+                }
+                m.extend_from_slice(b",7 V;B");
+            }
+            3 => {
+                m.extend_from_slice(b"A ");
+                for i in 0..big.min(5_000) {
+                    if i > 0 {
+                        m.push(b',');
+                    }
+                    let k = any_kind(rng);
+                    m.extend_from_slice(&gen_datum(rng, k).text);
+                }
+            }
+            4 => {
+                for i in 0..big.min(3_000) {
+                    if i > 0 {
+                        m.push(b';');
+                    }
+                    m.extend_from_slice(if i % 3 == 0 { b":A:B 1" } else if i % 3 == 1 { b"C?" } else { b"*D 'x;'" });
+                }
+            }
+            5 => {
+                let len = big;
+                let ls = len.to_string();
+                let width = (ls.len() + rng.usize(3)).min(9);
+                m.extend_from_slice(b"A #");
+                m.push(b'0' + width as u8);
+                for _ in 0..width - ls.len() {
+                    m.push(b'0');
+                }
+                m.extend_from_slice(ls.as_bytes());
+                for _ in 0..len {
+                    m.push(rng.next() as u8);
+                }
+                m.extend_from_slice(b",5;B");
+            }
+            6 => {
+                m.extend_from_slice(b"A (");
+                for i in 0..big {
+                    m.push(b"0123456789,:!@ "[(i + rng.usize(2)) % 15]);
+                }
+                m.extend_from_slice(b"),1");
+            }
+            7 => {
+                for i in 0..big.min(2_000) {
+                    if i > 0 {
+                        m.push(b':');
+                    }
+                    m.extend_from_slice(b"AB");
+                }
+                m.extend_from_slice(b"? 1");
+            }
+            _ => {
+                m.extend_from_slice(b"A 1.");
+                for _ in 0..big.min(20_000) {
+                    m.push(b'0' + rng.usize(10) as u8);
+                }
+                m.extend_from_slice(b"E-");
+                for _ in 0..(1 + rng.usize(3)) {
+                    m.push(b'0' + rng.usize(10) as u8);
+                }
+                m.extend_from_slice(b" HZ");
+            }
+        }
+        ctx.count(&format!("scale.{}", name));
+        ctx.nontrivial(mix(hash_str(name), big as u64));
+        let v = judge(ctx, &m, "scale");
+        ctx.count(&format!("scale.verdict.{}", v));
+    });
     // (3) bounded-exhaustive sweep over one representative byte per lexical class
     let maxlen: u32 = if cfg.tiny { 2 } else if cfg.quick() { 5 } else { 6 };
     let al = SWEEP_ALPHABET;
